@@ -293,6 +293,17 @@ archive_write_gnutar_header(struct archive_write *a,
 	} else
 		sconv = gnutar->opt_sconv;
 
+	/* Sanity check. */
+#if defined(_WIN32) && !defined(__CYGWIN__)
+	if (archive_entry_pathname_w(entry) == NULL) {
+#else
+	if (archive_entry_pathname(entry) == NULL) {
+#endif
+		archive_set_error(&a->archive, ARCHIVE_ERRNO_MISC,
+		    "Can't record entry in tar file without pathname");
+		return (ARCHIVE_FAILED);
+	}
+
 	/* Only regular files (not hardlinks) have data. */
 	if (archive_entry_hardlink(entry) != NULL ||
 	    archive_entry_symlink(entry) != NULL ||
